@@ -35,25 +35,15 @@ def is_frame(fr, ftype, fields):
     return And(*cs)
 
 
-def out_gets(S0, S1, cn, preds):
-    """out[cn] grows by exactly len(preds) frames, the j-th satisfying preds[j]; earlier frames stay"""
-    n = S0.out_len[cn]
-    k = len(preds)
-    if k == 0:
-        return And(S1.out_len[cn] == n, S1.out_buf[cn] == S0.out_buf[cn])
+from .outbox import box_gets, box_same, others_same, prefix_kept    # noqa: E402
 
-    frs = [S1.out_buf[cn][n + j] for j in range(k)]
-    buf = S0.out_buf[cn]
-    for j, fr in enumerate(frs):
-        buf = Store(buf, n + j, fr)
-    # (no existential: the new frames are named by their position; the array equation says nothing else moved)
-    return And(S1.out_len[cn] == n + k, S1.out_buf[cn] == buf, *[p(fr) for p, fr in zip(preds, frs)])
+
+def out_gets(S0, S1, cn, preds):
+    return box_gets(S0, S1, cn, preds)
 
 
 def others_silent(S0, S1, me):
-    return FA([INT], lambda cn: Implies(cn != me, And(S1.out_len[cn] == S0.out_len[cn],
-                                                      S1.out_buf[cn] == S0.out_buf[cn])),
-              pats=lambda cn: [S1.out_len[cn]])
+    return others_same(S0, S1, me)
 
 
 def only_me_gets(S0, S1, me, preds):
@@ -73,9 +63,7 @@ def own_outbox_summary(S0, S1, me):
     """what onMessage needs to know about this handler's frames to the acting connection: earlier
     frames stay, and if anything was sent the last frame is a `message`"""
     n0, n1 = S0.out_len[me], S1.out_len[me]
-    return And(n1 >= n0,
-               FA([INT], lambda i: Implies(And(0 <= i, i < n0), S1.out_buf[me][i] == S0.out_buf[me][i]),
-                  pats=lambda i: [S1.out_buf[me][i]]),
+    return And(n1 >= n0, prefix_kept(S0, S1, me),
                Implies(n1 > n0, S1.out_buf[me][n1 - 1][S("type")] == FV.fstr(S("message"))))
 
 # ---------------------------------------------------------------- what every handler may assume / must re-establish
@@ -152,10 +140,11 @@ def _(c):
     n = S0.out_len[me]
     kw = c.a.kwargs.t
     # the frame is the keyword arguments plus its type and a send timestamp; nobody else's outbox moves
+    fr = S1.out_buf[me][n]
     yield "adds_type_and_tx", And(
-        S1.out_len == Store(S0.out_len, me, n + 1),
-        EX([REAL], lambda tx: S1.out_buf == Store(S0.out_buf, me, Store(
-            S0.out_buf[me], n, Store(Store(kw, S("type"), FV.fstr(c.a.t("mtype"))), S("server_tx"), FV.fnum(tx)))))), ["C17"]
+        S1.out_len[me] == n + 1, prefix_kept(S0, S1, me), others_same(S0, S1, me),
+        fr[S("type")] == FV.fstr(c.a.t("mtype")), FV.is_fnum(fr[S("server_tx")]),
+        FA([Str], lambda k: Implies(And(k != S("type"), k != S("server_tx")), fr[k] == kw[k]))), ["C17"]
 
 
 # ---------------------------------------------------------------- onOpen / onClose
@@ -614,9 +603,10 @@ def _(c, L):
     n0 = E.out_len[me]
     lst = L.seq
     yield "count", S_.out_len == Store(E.out_len, me, n0 + L.k)
-    yield "others", FA([INT], lambda cn: Implies(cn != me, S_.out_buf[cn] == E.out_buf[cn]))
-    yield "prefix", FA([INT], lambda i: Implies(And(0 <= i, i < n0), S_.out_buf[me][i] == E.out_buf[me][i]),
-                       pats=lambda i: [S_.out_buf[me][i]])
+    yield "others", FA([INT, INT], lambda cn, i: Implies(And(cn != me, 0 <= i, i < E.out_len[cn]),
+                                                         S_.out_buf[cn][i] == E.out_buf[cn][i]),
+                       pats=lambda cn, i: [S_.out_buf[cn][i]])
+    yield "prefix", prefix_kept(E, S_, me)
     yield "sent", FA([INT], lambda j: Implies(And(0 <= j, j < L.k), is_message_frame(S_.out_buf[me][n0 + j], lst.at(j))))
 
 
